@@ -750,6 +750,104 @@ func (r *run10) observe() {
 	r.nobs++
 }
 
+// pausing series iterator: hands out its elements and runs atEnd once before reporting the end
+type pauseIter struct {
+	elems []serElem
+	i     int
+	atEnd func()
+}
+
+func (s *pauseIter) Close() error { return nil }
+func (s *pauseIter) Next() (tsdb.SeriesElem, error) {
+	if s.i >= len(s.elems) {
+		if s.atEnd != nil {
+			f := s.atEnd
+			s.atEnd = nil
+			f()
+		}
+		return nil, nil
+	}
+	e := s.elems[s.i]
+	s.i++
+	return e, nil
+}
+
+func elemOf(s Ser) serElem {
+	return serElem{name: []byte(s.M), tags: models.NewTags(map[string]string{"s": s.S})}
+}
+
+// overlap: two deletes overlap on the shard.  D1 (Series[0]) has picked up its series -- level
+// compactions are off -- but has not written its tombstones when D2 (Series[1]) starts and
+// completes; then the harness plays the compaction goroutine: Compactor.CompactFull of all
+// files must be refused while D1 is in flight.  If it is not, the result is installed after D1
+// finished, as Engine.compactGroup would do.
+func (r *run10) overlap(op Op) error {
+	if len(op.Series) < 2 {
+		return fmt.Errorf("ovl needs two series")
+	}
+	d1, d2 := op.Series[0], op.Series[1]
+	lo, hi := op.Lo, op.Hi
+	// level compactions are "on" in the engine only after something enabled them: a delete of a
+	// series that was never written does (it returns before touching any data)
+	warm := &serIter{elems: []serElem{elemOf(Ser{M: "zz", S: "zz"})}}
+	if err := guard(func() error { return r.w.sh.DeleteSeriesRange(warm, 0, 0) }); err != nil {
+		return fmt.Errorf("warm-up delete: %v", err)
+	}
+	var group, out []string
+	var cerr, d2err error
+	refused := false
+	it := &pauseIter{elems: []serElem{elemOf(d1)}}
+	it.atEnd = func() {
+		d2err = guard(func() error { return r.w.sh.DeleteSeriesRange(&serIter{elems: []serElem{elemOf(d2)}}, lo, hi) })
+		for _, f := range r.w.eng.FileStore.Files() {
+			group = append(group, f.Path())
+		}
+		sort.Strings(group)
+		if len(group) == 0 {
+			return
+		}
+		cerr = guard(func() error {
+			var e error
+			out, e = r.w.eng.Compactor.CompactFull(group)
+			return e
+		})
+		refused = cerr != nil
+	}
+	if err := guard(func() error { return r.w.sh.DeleteSeriesRange(it, lo, hi) }); err != nil {
+		return fmt.Errorf("delete: %v", err)
+	}
+	if d2err != nil {
+		return fmt.Errorf("inner delete: %v", d2err)
+	}
+	if len(group) > 0 && !refused {
+		// the compaction ran while a delete was in flight: install its result now
+		count(r.o, "ovl:compaction-not-refused")
+		if err := guard(func() error { return r.w.eng.FileStore.ReplaceWithCallback(group, out, nil) }); err != nil {
+			return fmt.Errorf("replace: %v", err)
+		}
+	} else if len(group) > 0 {
+		count(r.o, "ovl:compaction-refused")
+	}
+	for _, d := range []Ser{d2, d1} {
+		g := r.seriesOf(d.M, []Ser{d})
+		if len(g) > 0 {
+			r.xs = append(r.xs, fmt.Sprintf("XDelete %s %s %s", coqSeries(g), hx.CoqZ(lo), hx.CoqZ(hi)))
+		}
+		r.xs = append(r.xs, fmt.Sprintf("XHist (HAck (ODelete %s %s %s))", hx.CoqList(r.keysOfSeries(g)), hx.CoqZ(lo), hx.CoqZ(hi)))
+		for k, ts := range r.hot {
+			if r.keys[k][0] == d.M && r.keys[k][1] == d.S {
+				for t := range ts {
+					if t >= lo && t <= hi {
+						delete(ts, t)
+					}
+				}
+			}
+		}
+	}
+	count(r.o, "op:overlapping-deletes")
+	return nil
+}
+
 func (r *run10) write(op Op) error {
 	pts, err := mkPoints(op.Pts)
 	if err != nil {
@@ -891,6 +989,8 @@ func runHist10(o *hx.Out, d Desc10, origin string) {
 				}
 			}
 			count(r.o, "op:dropm")
+		case "ovl":
+			err = r.overlap(op)
 		case "restart":
 			// crash image of the quiescent store, reopened by a fresh Store
 			img, e := takeImage(r.w, "", -1)
@@ -1075,6 +1175,94 @@ func (g *gen) history(n int, known bool) []Op {
 
 func ip(m, s, f string, t int64, v int64) Pt { return Pt{M: m, S: s, F: f, T: t, V: fmt.Sprint(v)} }
 
+// tombstone-replay family: several series interleaved in ONE file, 2-4 range deletes with
+// different ranges (nested, overlapping, sharing one bound, disjoint) on different series,
+// reopen before any compaction, more writes, second reopen
+func (g *gen) tombFamily() []Op {
+	var pts []Pt
+	for t := int64(1); t <= 8; t++ {
+		for _, sv := range tagvals {
+			p := Pt{M: "m0", S: sv, F: "i0", T: t}
+			p.V = g.value("i0")
+			pts = append(pts, p)
+			g.seen = append(g.seen, p)
+		}
+	}
+	ops := []Op{{K: "w", Pts: pts}, {K: "snap"}}
+	n := 2 + g.r.Intn(3)
+	var plo, phi int64 = 3, 5
+	first := g.r.Intn(len(tagvals))
+	for i := 0; i < n; i++ {
+		lo, hi := int64(1+g.r.Intn(8)), int64(0)
+		hi = lo + int64(g.r.Intn(int(9-lo)))
+		switch g.r.Intn(8) {
+		case 0:
+			lo = math.MinInt64
+		case 1:
+			hi = math.MaxInt64
+		}
+		if i > 0 {
+			switch g.r.Intn(5) {
+			case 0: // shares the lower bound
+				lo = plo
+				if hi < lo {
+					hi = lo
+				}
+			case 1: // shares the upper bound
+				hi = phi
+				if lo > hi {
+					lo = hi
+				}
+			case 2: // both open below: time <= t1 then time <= t2
+				lo = math.MinInt64
+			}
+		}
+		sv := tagvals[(first+i)%len(tagvals)]
+		ops = append(ops, Op{K: "del", Series: []Ser{{"m0", sv}}, Lo: lo, Hi: hi})
+		plo, phi = lo, hi
+		if g.r.Chance(15) {
+			ops = append(ops, Op{K: "restart"})
+		}
+	}
+	ops = append(ops, Op{K: "restart"}, g.write())
+	if g.r.Chance(50) {
+		ops = append(ops, g.del("del"))
+	}
+	if g.r.Chance(30) {
+		ops = append(ops, Op{K: "snap"})
+	}
+	ops = append(ops, Op{K: "restart"})
+	return ops
+}
+
+// overlapping deletes with a compaction attempt in the window
+func (g *gen) overlapFamily() []Op {
+	ops := []Op{g.write(), g.write(), {K: "snap"}, g.write()}
+	if g.r.Chance(50) {
+		ops = append(ops, Op{K: "snap"}, g.write())
+	}
+	var cands []Ser
+	seenS := map[Ser]bool{}
+	for _, p := range g.seen {
+		s := Ser{p.M, p.S}
+		if !seenS[s] {
+			seenS[s] = true
+			cands = append(cands, s)
+		}
+	}
+	d1 := cands[g.r.Intn(len(cands))]
+	d2 := cands[g.r.Intn(len(cands))]
+	if d2 == d1 {
+		d2 = Ser{M: "m1", S: "c"}
+	}
+	op := Op{K: "ovl", Series: []Ser{d1, d2}, Lo: math.MinInt64, Hi: math.MaxInt64}
+	if g.r.Chance(40) {
+		op.Lo, op.Hi = 0, int64(5+g.r.Intn(15))
+	}
+	ops = append(ops, op, Op{K: "restart"}, g.write(), Op{K: "restart"})
+	return ops
+}
+
 func designed(o *hx.Out) {
 	w := func(pts ...Pt) Op { return Op{K: "w", Pts: pts} }
 	a1, a2, a3 := ip("m0", "a", "i0", 1, 10), ip("m0", "a", "i0", 2, 20), ip("m0", "a", "i0", 3, 30)
@@ -1087,6 +1275,22 @@ func designed(o *hx.Out) {
 	runHist10(o, Desc10{Ops: []Op{w(a1, a3, c1), {K: "snap"}, delA(1, 3), {K: "restart"}, w(a1, a3), {K: "snap"}, delA(1, 1), delA(3, 3), {K: "restart"}}}, "designed")
 	runHist10(o, Desc10{Ops: []Op{w(a1, b1, c1), {K: "dropm", Series: []Ser{{M: "m1"}}}, {K: "snap"}, {K: "dropm", Series: []Ser{{M: "m0"}}}, {K: "restart"}, w(a1), {K: "restart"}}}, "designed")
 	runHist10(o, Desc10{Ops: []Op{w(a1, b1, c1), {K: "snap"}, {K: "del", I: 2, Lo: math.MinInt64, Hi: 1}, {K: "restart"}, w(a2, c1), {K: "del", I: 1, Series: []Ser{{M: "m0"}}, Lo: 2, Hi: math.MaxInt64}, {K: "snap"}, {K: "restart"}}}, "designed")
+	// tombstone replay at reopen: different ranges on different series of one file
+	six := func(sv string, base int64) []Pt {
+		var ps []Pt
+		for t := int64(1); t <= 6; t++ {
+			ps = append(ps, ip("m0", sv, "i0", t, base+t))
+		}
+		return ps
+	}
+	all := append(append(six("a", 100), six("b", 200)...), six("c", 300)...)
+	delS := func(sv string, lo, hi int64) Op { return Op{K: "del", Series: []Ser{{"m0", sv}}, Lo: lo, Hi: hi} }
+	runHist10(o, Desc10{Ops: []Op{w(all...), {K: "snap"}, delS("a", 2, 3), delS("b", 2, 5), {K: "restart"}, w(a1), {K: "restart"}}}, "designed")
+	runHist10(o, Desc10{Ops: []Op{w(all...), {K: "snap"}, delS("a", math.MinInt64, 2), delS("b", math.MinInt64, 4), delS("c", 3, 4), {K: "restart"}, w(a1), {K: "restart"}}}, "designed")
+	runHist10(o, Desc10{Ops: []Op{w(all...), {K: "snap"}, delS("a", 5, 6), delS("b", 1, 2), delS("c", 2, 6), delS("a", 1, 1), {K: "restart"}, {K: "snap"}, {K: "restart"}}}, "designed")
+	// overlapping deletes and a compaction in the window
+	runHist10(o, Desc10{Ops: []Op{w(a1, a2, b1), {K: "snap"}, w(c1), {K: "ovl", Series: []Ser{{"m0", "a"}, {"m1", "a"}}, Lo: math.MinInt64, Hi: math.MaxInt64}, {K: "restart"}}}, "designed")
+	runHist10(o, Desc10{Ops: []Op{w(a1, a2, b1), {K: "snap"}, w(a3), {K: "snap"}, {K: "ovl", Series: []Ser{{"m0", "a"}, {"m0", "b"}}, Lo: 1, Hi: 2}, {K: "restart"}, w(a1), {K: "restart"}}}, "designed")
 	// the known shape: a delete while the snapshot holding the points is in flight
 	runHist10(o, Desc10{Ops: []Op{w(a1, a2), {K: "snapdel", Series: []Ser{{"m0", "a"}}, Lo: 1, Hi: 1}, {K: "restart"}}}, "designed")
 }
@@ -1120,6 +1324,13 @@ func main() {
 	r := hx.NewRand(f.Seed)
 	for i := 0; i < f.N; i++ {
 		g := &gen{r: r.Split()}
-		runHist10(o, Desc10{Ops: g.history(5+g.r.Intn(9), i%12 == 5)}, "gen")
+		switch {
+		case i%5 == 1:
+			runHist10(o, Desc10{Ops: g.tombFamily()}, "gen")
+		case i%10 == 7:
+			runHist10(o, Desc10{Ops: g.overlapFamily()}, "gen")
+		default:
+			runHist10(o, Desc10{Ops: g.history(5+g.r.Intn(9), i%12 == 5)}, "gen")
+		}
 	}
 }
